@@ -423,8 +423,22 @@ impl Check for CmdCheck {
         let has_drops = s.scn.steps.iter().flatten().any(|a| matches!(a, Action::Drop { .. } | Action::DropRoot(_) | Action::DropAll));
         let nomodel = Checks { id: self.id, model: false, quiescence: false, occupancy: false, done: false };
 
+        // a task that aborts a sibling makes and/all sensitive to the order of their parts
+        let interfering = s.scn.steps.iter().flatten().any(|a| match a {
+            Action::Event(Event::Run(c)) => {
+                let f = std::cell::Cell::new(false);
+                c.visit(&mut |_| {}, &mut |st| {
+                    if matches!(st, crate::cmd::ast::Stmt::AbortCmd(_)) {
+                        f.set(true);
+                    }
+                });
+                f.get()
+            }
+            _ => false,
+        });
+        let law = s.law.as_ref().filter(|l| !(interfering && matches!(l, Law::AndCommute | Law::AllPermute(_))));
         // model-free oracle 1: algebraic laws / wrapping layers, real vs real under the same script
-        if let Some(law) = &s.law {
+        if let Some(law) = law {
             let mut applies = false;
             let mut scn2 = s.scn.clone();
             scn2.buggify = false;
